@@ -182,9 +182,22 @@ def check_consumers(ck, P, rid):
     if kind != "var":
         ck.violated(rid, "consumers:value", prs[0].where, "the value returned by gvt_phase_run() is not kept: a completed round would be lost", cfg)
         return
+    # the consumers may have been extracted together into one static helper that only the worker loop calls and that receives the value:
+    # then the helper's call plays the role of each consumer call in the loop, and inside it every consumer gets the helper's parameter
+    via = None
+    for h in Q.with_helpers(P, f)[1:]:
+        if all(len(list(h.calls(cn))) == 1 for cn in CONSUMERS) and len(h.params) == 1:
+            hc = list(f.calls(h.name))
+            inner_ok = all((not X.callee_args(c2)) or (X.strip(X.callee_args(c2)[0]).k == "DeclRefExpr" and X.strip(X.callee_args(c2)[0]).name == h.params[0]["name"])
+                           for cn in CONSUMERS for c2 in h.calls(cn))
+            straight = not any(n.k in ("IfStmt", "WhileStmt", "ForStmt", "DoStmt", "ReturnStmt", "GotoStmt", "SwitchStmt") for n in h.walk())
+            if len(hc) == 1 and inner_ok and straight:
+                via = (h, hc[0])
     for cname in CONSUMERS:
         inst = "consumer:%s" % cname
         cs = list(f.calls(cname))
+        if not cs and via is not None:
+            cs = [via[1]]
         if len(cs) != 1:
             ck.violated(rid, inst, f.where, "%s is called %d times in the worker loop (each completed round must reach it exactly once)" % (cname, len(cs)), cfg)
             continue
